@@ -59,7 +59,9 @@ FRAG = {
                                                                         "measure": "count_unweighted"}}],
     "d": [{}, {"insertions": a_ins}, {"insertions": a_ins, "prune": True}],
     "b": [{}, {"insertions": b_ins}, {"insertions": b_diff}, {"insertions": b_ins, "order": {"type": "explicit", "element_ids": [2, 1]}},
-          {"elements": {"1": {"hide": True}}}, {"prune": True, "order": {"type": "label"}}],
+          {"elements": {"1": {"hide": True}}}, {"prune": True, "order": {"type": "label"}},
+          {"insertions": b_ins + [subtotal("b2", [2], anchor="bottom", sid=7)],
+           "order": {"type": "opposing_insertion", "insertion_id": 1, "measure": "count_unweighted"}}],
     "m": [{}, {"order": {"type": "explicit", "element_ids": ["m_2", "m_1"]}}, {"elements": {"m_1": {"hide": True}}, "prune": True}],
     "n": [{}, {"order": {"type": "label", "direction": "ascending"}}, {"prune": True}],
     "q": [{}],
